@@ -361,6 +361,23 @@ func gen(c *hx.Ctx) {
 		c.Count("bytes_random")
 	}
 
+	// 5a. hash collisions: distinct equal-length strings colliding under the usual cheap 32-bit hashes (and their 16-bit
+	// truncations), written and read back-to-back and interleaved by ONE writer / reader pair, as strings and as byte slices
+	collisionLens := []int{3, 4, 5, 6, 7, 8, 9, 10, 11, 12, 13, 14, 15, 16, 17, 24, 33, 64}
+	cols := findCollisions(hx.NewRng(c.Seed^0x5eedc011), c.Budget(150000, 400000), c.Budget(1, 3), collisionLens)
+	for _, col := range cols {
+		a, b := hexOf(col.vals[0]), hexOf(col.vals[1])
+		x := hexOf(randBytes(c, len(col.vals[0]))) // an unrelated value of the same length
+		if len(col.vals) > 2 {
+			x = hexOf(col.vals[2])
+		}
+		c.Emit("seq | S:%s ; S:%s ; S:%s ; S:%s", a, b, a, b)
+		c.Emit("seq | S:%s ; S:%s ; S:%s ; i:7 ; S:%s ; S:%s", a, a, b, x, b)
+		c.Emit("seq | B:%s ; B:%s ; S:%s ; v:300 ; S:%s ; B:%s ; S:%s ; h:-2 ; S:%s ; B:%s", a, b, b, a, x, a, b, a)
+		c.Count("hash_collision_set")
+		c.Count("hash_collision_" + col.hash)
+	}
+
 	// 5b. concurrency: 8 goroutines, each with its own private stream / writer / reader, repeat their own sequence R times at
 	// the same time; bytes and read-back values must equal the sequential run of the same sequence
 	for i := 0; i < c.Budget(16, 120); i++ {
